@@ -215,6 +215,23 @@ def run_doc(ctx, rep, corr, comps, family, rng, n_values, values_of=None, wf=Tru
                 d1, d2 = O.impl_decode(obj, pdu), O.impl_decode(obj, pdu)
                 if d1.ok != d2.ok or (d1.ok and V.norm(d1.value) != V.norm(d2.value)):
                     rep.report("history-independent", "decode-depends-on-earlier-calls", c, v, trig, {"pdu": pdu.hex()})
+        # (round 9) "every ACCEPTED value": the first assignment with one integer member replaced by the values at and just outside the
+        # limits of its coded type (IDENTICAL compu method, no BIT-MASK: nothing but the representation decides). A rejected value is
+        # outside the property; an accepted one has to come back -- and the model must agree on which ones are accepted.
+        if first is not None and vals is None and isinstance(first[0], dict):
+            import malformed as M
+            v, trig, _ = first
+            cands = [p for p in c.params if p.type == "value" and isinstance(p.dop, D.SimpleDop) and isinstance(p.dop.dct, D.Std)
+                     and p.dop.dct.mask is None and p.dop.phys in ("A_INT32", "A_UINT32") and p.dop.dct.bt in ("A_INT32", "A_UINT32")
+                     and isinstance(p.dop.compu, D.Identical) and isinstance(v.get(p.name), int)
+                     and not getattr(p, "meta", None) and wf]       # (not the overlay of an NRC-CONST / a member of a bit-field group)
+            for p in cands[:2]:
+                bounds = M._int_bounds(p.dop)
+                n = p.dop.dct.bitlen
+                must = [x for x in bounds if abs(abs(x) - (1 << (n - 1))) <= 1 or abs(abs(x) - (1 << n)) <= 1]
+                for x in (must + rng.sample(bounds, min(3, len(bounds))))[:9]:
+                    ctx.histo("family", family + "(int-boundary)")
+                    O.c01_check(ctx, rep, corr, c, obj, {**v, p.name: x}, trig, family, wf=wf)
 
 
 def overlapping_variant(rng, c):
